@@ -1,4 +1,5 @@
 import Pyxv.Model.BackendsGuards
+import Pyxv.Proofs.BackendsLemmas
 /-!
 # Markdown backend: `md_to_dict (renderMd wb) = toBook wb`
 
@@ -423,9 +424,10 @@ theorem mdLine_name (st : MdSt) (n : Str) (hs : strip n = n) (hne : n ≠ []) :
     splitPipes_line [n] (by simp)]
   simp [mdStrp_pad n hs hne]
 
-/-- a header / data line `| | c1 | c2 |` below a sheet-name line -/
+/-- a header / data line `| | c1 | c2 |` below a sheet-name line: appended when it has a non-empty
+cell (the header line) or when the sheet already has a row (every data line, blank or not) -/
 theorem mdLine_row (n : Str) (arr : List MdRow) (S : List (Option Str × Option (List MdRow)))
-    (r : List Str) (hs : ∀ c ∈ r, strip c = c) (hne : ∃ c ∈ r, c ≠ []) :
+    (r : List Str) (hs : ∀ c ∈ r, strip c = c) (hne : (∃ c ∈ r, c ≠ []) ∨ arr ≠ []) :
     mdLine ⟨some n, some arr, S⟩ (mdLineOf ([] :: r)) =
       ⟨some n, some (arr ++ [r.map toOpt]), dset (some n) (some (arr ++ [r.map toOpt])) S⟩ := by
   have hrow : (r.map mdCellPad).map mdStrp = r.map toOpt := by
@@ -433,29 +435,34 @@ theorem mdLine_row (n : Str) (arr : List MdRow) (S : List (Option Str × Option 
     apply List.map_congr_left
     intro c hc
     exact mdStrp_pad_toOpt c (hs c hc)
-  have hany : (r.map toOpt).any Option.isSome = true := by
-    obtain ⟨c, hc, hcne⟩ := hne
-    simp only [List.any_map, List.any_eq_true]
-    exact ⟨c, hc, by simp [toOpt, hcne]⟩
   unfold mdLine
   rw [mdIsComment_lineOf, mdInline_lineOf]
   simp only [Option.getD_none, mdCellGroup_lineOf, mdSeparator_line ([] :: r) (by simp),
     splitPipes_line ([] :: r) (by simp)]
-  simp only [List.map_cons, mdStrp_pad_nil, hrow, hany]
-  simp
+  simp only [List.map_cons, mdStrp_pad_nil, hrow]
+  rcases hne with hne | hne
+  · have hany : (r.map toOpt).any Option.isSome = true := by
+      obtain ⟨c, hc, hcne⟩ := hne
+      simp only [List.any_map, List.any_eq_true]
+      exact ⟨c, hc, by simp [toOpt, hcne]⟩
+    simp [hany]
+  · cases arr with
+    | nil => exact absurd rfl hne
+    | cons a arr => simp
 
 def optRows (rows : List (List Str)) : List MdRow := rows.map fun r => r.map toOpt
 
 theorem foldl_rows (n : Str) (S : List (Option Str × Option (List MdRow))) (rows : List (List Str))
-    (arr : List MdRow) (h : ∀ r ∈ rows, (∀ c ∈ r, strip c = c) ∧ ∃ c ∈ r, c ≠ []) :
+    (arr : List MdRow) (harr : arr ≠ []) (h : ∀ r ∈ rows, ∀ c ∈ r, strip c = c) :
     (rows.map fun r => mdLineOf ([] :: r)).foldl mdLine ⟨some n, some arr, dset (some n) (some arr) S⟩ =
       ⟨some n, some (arr ++ optRows rows), dset (some n) (some (arr ++ optRows rows)) S⟩ := by
   induction rows generalizing arr with
   | nil => simp [optRows]
   | cons r rows ih =>
-    obtain ⟨h1, h2⟩ := h r (by simp)
+    have h1 := h r (by simp)
     simp only [List.map_cons, List.foldl_cons]
-    rw [mdLine_row n arr _ r h1 h2, dset_dset, ih _ (fun r' hr' => h r' (by simp [hr']))]
+    rw [mdLine_row n arr _ r h1 (.inr harr), dset_dset,
+      ih _ (by simp) (fun r' hr' => h r' (by simp [hr']))]
     simp [optRows]
 
 /-- what `_md_table_to_ss_structure` holds for a sheet: its name, the header row and the data
@@ -471,17 +478,19 @@ theorem mdLines_cons (s : Sheet) (wb : Workbook) : mdLines (s :: wb) = sheetLine
 
 /-- Prop form of the per-sheet guard for the structure level -/
 def SheetP (s : Sheet) : Prop :=
-  strip s.name = s.name ∧ s.name ≠ [] ∧
-    ∀ r ∈ s.header :: s.rows, (∀ c ∈ r, strip c = c) ∧ ∃ c ∈ r, c ≠ []
+  strip s.name = s.name ∧ s.name ≠ [] ∧ (∀ c ∈ s.header, strip c = c) ∧ (∃ c ∈ s.header, c ≠ []) ∧
+    ∀ r ∈ s.rows, ∀ c ∈ r, strip c = c
 
 theorem foldl_sheet (st : MdSt) (s : Sheet) (h : SheetP s) :
     (sheetLines s).foldl mdLine st =
       ⟨some s.name, some (optRows (s.header :: s.rows)),
         dset (some s.name) (some (optRows (s.header :: s.rows))) st.sheets⟩ := by
-  obtain ⟨h1, h2, h3⟩ := h
+  obtain ⟨h1, h2, h3, h4, h5⟩ := h
   unfold sheetLines
-  rw [List.foldl_cons, mdLine_name st s.name h1 h2, foldl_rows s.name st.sheets _ [] h3]
-  simp
+  rw [List.foldl_cons, mdLine_name st s.name h1 h2, List.map_cons, List.foldl_cons,
+    mdLine_row s.name [] _ s.header h3 (.inl h4), dset_dset,
+    foldl_rows s.name st.sheets s.rows _ (by simp) h5]
+  simp [optRows]
 
 
 
@@ -570,14 +579,73 @@ theorem map_optStr_toOpt (header : List Str) (hh : ∀ c ∈ header, c ≠ []) :
     simp only [List.map_cons, toOpt, hhne, if_false, optStr]
     rw [ih (fun c hc => hh c (by simp [hc]))]
 
-theorem mdSheet_zip (key : Str) (s : Sheet) (b : Book) (hh : ∀ c ∈ s.header, c ≠ []) :
+/-- a row without any non-empty cell adds nothing to the dict -/
+theorem zipDict_blank (hdr r : List Str) (acc : KRow)
+    (h : (r.map toOpt).any Option.isSome = false) : zipDict hdr r acc = acc := by
+  induction r generalizing hdr with
+  | nil => cases hdr <;> simp [zipDict]
+  | cons v vs ih =>
+    simp only [List.map_cons, List.any_cons, Bool.or_eq_false_iff] at h
+    have hv : v = [] := by
+      by_cases hv : v = []
+      · exact hv
+      · simp [toOpt, hv] at h
+    subst hv
+    cases hdr with
+    | nil => simp [zipDict]
+    | cons c cs =>
+      simp only [zipDict, if_true]
+      exact ih cs h.2
+
+theorem length_stripTrailing_le {α} (p : α → Bool) (l : List α) :
+    (stripTrailing p l).length ≤ l.length := by
+  obtain ⟨t, ht, _⟩ := stripTrailing_decomp p l
+  have := congrArg List.length ht
+  simp only [List.length_append] at this
+  omega
+
+/-- under `noTrailingBlank` the last row of the Markdown structure is not all-`None`: the trailing
+trim of `md_to_dict` removes nothing -/
+theorem stripTrailing_optRows (hdr : List Str) (rows : List (List Str))
+    (h : stripTrailing (·.isEmpty) (rows.map (sheetRow hdr)) = rows.map (sheetRow hdr)) :
+    stripTrailing (fun r : MdRow => !r.any Option.isSome) (optRows rows) = optRows rows := by
+  induction rows using list_reverse_induction with
+  | nil => rfl
+  | append_singleton l x _ =>
+    have hx : (sheetRow hdr x).isEmpty = false := by
+      cases hx : (sheetRow hdr x).isEmpty with
+      | false => rfl
+      | true =>
+        rw [List.map_append, List.map_cons, List.map_nil,
+          stripTrailing_snoc_pos _ _ _ hx] at h
+        have h1 := length_stripTrailing_le (fun r : KRow => r.isEmpty) (l.map (sheetRow hdr))
+        rw [h] at h1
+        simp only [List.length_append, List.length_cons, List.length_nil] at h1
+        omega
+    have hany : (x.map toOpt).any Option.isSome = true := by
+      cases hany : (x.map toOpt).any Option.isSome with
+      | true => rfl
+      | false =>
+        have := zipDict_blank hdr x [] hany
+        simp [sheetRow, this] at hx
+    have : optRows (l ++ [x]) = optRows l ++ [x.map toOpt] := by simp [optRows]
+    rw [this]
+    exact stripTrailing_snoc_neg _ _ _ (by simp [hany])
+
+theorem noTrailingBlank_iff (s : Sheet) : noTrailingBlank s = true ↔
+    stripTrailing (·.isEmpty) (s.rows.map (sheetRow s.header)) = s.rows.map (sheetRow s.header) := by
+  simp [noTrailingBlank, dictRows]
+
+theorem mdSheet_zip (key : Str) (s : Sheet) (b : Book) (hh : ∀ c ∈ s.header, c ≠ [])
+    (hnt : noTrailingBlank s = true) :
     mdSheet key (optRows (s.header :: s.rows)) b =
       dset (key ++ headerSuffix) (.header (l2dl s.header))
         (dset key (.rows (s.rows.map (sheetRow s.header))) b) := by
   have h1 := mdRows_zip s.header s.rows hh
-  simp only [optRows, List.map_cons] at h1 ⊢
+  have h2 := stripTrailing_optRows s.header s.rows ((noTrailingBlank_iff s).1 hnt)
+  show mdSheet key (s.header.map toOpt :: optRows s.rows) b = _
   rw [mdSheet]
-  simp only [h1, map_optStr_toOpt s.header hh]
+  simp only [h2, h1, map_optStr_toOpt s.header hh]
 
 /-- lower-cased sheet name: the key of the sheet in the book -/
 def lw (s : Sheet) : Str := lowerAscii s.name
@@ -595,7 +663,7 @@ theorem keys_entries {k : Str} {pre : Workbook}
 
 /-- Prop form of the per-sheet guard for the book level -/
 def SheetQ (s : Sheet) : Prop :=
-  isAscii s.name = true ∧ lw s ∈ supported ∧ ∀ c ∈ s.header, c ≠ []
+  isAscii s.name = true ∧ lw s ∈ supported ∧ (∀ c ∈ s.header, c ≠ []) ∧ noTrailingBlank s = true
 
 theorem toBook_snoc (pre : Workbook) (s : Sheet) :
     toBook (pre ++ [s]) =
@@ -645,7 +713,7 @@ theorem mdProcess_render (single : Bool) (wb pre : Workbook) (hok : ∀ s ∈ wb
   induction wb generalizing pre with
   | nil => simp [mdProcess]
   | cons s wb ih =>
-    obtain ⟨h1, h2, h3⟩ := hok s (by simp)
+    obtain ⟨h1, h2, h3, h4⟩ := hok s (by simp)
     simp only [List.map_cons, distinctB, Bool.and_eq_true, Bool.not_eq_true',
       List.contains_eq_mem, decide_eq_false_iff_not] at hd
     have hcont : supported.contains (lowerAscii s.name) = true := by
@@ -656,7 +724,7 @@ theorem mdProcess_render (single : Bool) (wb pre : Workbook) (hok : ∀ s ∈ wb
     simp only [List.map_cons, sheetStruct]
     rw [mdProcess]
     simp only [h1, Bool.not_true, Bool.false_eq_true, if_false, hcont, if_true, hb1]
-    rw [mdSheet_zip _ s _ h3]
+    rw [mdSheet_zip _ s _ h3 h4]
     have hstep := book_step pre s (Val.names (pre.map (·.name) ++ [s.name]))
       (.rows (s.rows.map (sheetRow s.header))) (.header (l2dl s.header)) hpre h2
       (hfresh s (by simp))
@@ -708,19 +776,15 @@ theorem distinctB_of_map (f : Str → Str) (l : List Str) (h : distinctB (l.map 
 theorem sheetOK_unpack (s : Sheet) (h : sheetOK s = true) :
     SheetP s ∧ SheetQ s ∧
       ('\n' ∉ s.name ∧ (∀ c ∈ s.header, '\n' ∉ c) ∧ ∀ r ∈ s.rows, ∀ c ∈ r, '\n' ∉ c) := by
-  simp only [sheetOK, nameOK, rowOK, Bool.and_eq_true, List.all_eq_true, List.any_eq_true,
-    cellOK_iff, bne_iff_ne, ne_eq, decide_eq_true_eq, List.contains_eq_mem] at h
-  obtain ⟨⟨⟨⟨⟨⟨⟨n1, n2⟩, n3⟩, n4⟩, n5⟩, h1⟩, h2⟩, h3⟩ := h
-  refine ⟨⟨n1, n3, ?_⟩, ⟨n4, n5, fun c hc => (h2 c hc).2⟩,
-    ⟨n2, fun c hc => (h2 c hc).1.2, fun r hr c hc => ((h3 r hr).1 c hc).2⟩⟩
-  intro r hr
-  simp only [List.mem_cons] at hr
-  rcases hr with rfl | hr
-  · refine ⟨fun c hc => (h2 c hc).1.1, ?_⟩
-    cases hh : s.header with
-    | nil => exact absurd hh h1
-    | cons c t => exact ⟨c, by simp, (h2 c (by simp [hh])).2⟩
-  · exact ⟨fun c hc => ((h3 r hr).1 c hc).1, (h3 r hr).2⟩
+  simp only [sheetOK, nameOK, rowOK, Bool.and_eq_true, List.all_eq_true,
+    cellOK_iff, bne_iff_ne, ne_eq, List.contains_eq_mem, decide_eq_true_eq] at h
+  obtain ⟨⟨⟨⟨⟨⟨⟨⟨n1, n2⟩, n3⟩, n4⟩, n5⟩, h1⟩, h2⟩, h3⟩, h4⟩ := h
+  refine ⟨⟨n1, n3, fun c hc => (h2 c hc).1.1, ?_, fun r hr c hc => (h3 r hr c hc).1⟩,
+    ⟨n4, n5, fun c hc => (h2 c hc).2, h4⟩,
+    ⟨n2, fun c hc => (h2 c hc).1.2, fun r hr c hc => (h3 r hr c hc).2⟩⟩
+  cases hh : s.header with
+  | nil => exact absurd hh h1
+  | cons c t => exact ⟨c, by simp, (h2 c (by simp [hh])).2⟩
 
 /-- `_md_table_to_ss_structure` reads the rendered workbook back sheet by sheet -/
 theorem mdStructure_render (wb : Workbook) (hne : wb ≠ []) (h : MdOK wb = true) :
@@ -810,9 +874,18 @@ example : mdToDict (renderMd exWb) = .ok (toBook exWb) :=
 example : mdToDict (renderMd exWb) = .ok (toBook exWb) := by decide +kernel
 example : supportedKeysOK = true := supported_keys_ok
 
+/-- blank rows inside the data: a row of empty cells and a row with no cell at all (`|  |`) -/
 def exBlank : Workbook :=
   [ { name := "survey".toList, header := ["type".toList, "name".toList],
+      rows := [["text".toList, "q".toList], [[], []], [], ["note".toList, "n".toList]] } ]
+/-- the last row is blank -/
+def exBlankLast : Workbook :=
+  [ { name := "survey".toList, header := ["type".toList, "name".toList],
       rows := [["text".toList, "q".toList], [[], []]] } ]
+/-- a cell with an interior U+00A0 -/
+def exNbsp : Workbook :=
+  [ { name := "survey".toList, header := ["type".toList, "label".toList],
+      rows := [["note".toList, ['a', Char.ofNat 160, 'b']]] } ]
 def exLong : Workbook :=
   [ { name := "survey".toList, header := ["type".toList, "name".toList],
       rows := [["text".toList, "q".toList, "x".toList]] } ]
@@ -820,8 +893,27 @@ def exNone : Workbook :=
   [ { name := "survey".toList, header := ["type".toList, []],
       rows := [["text".toList, "q".toList]] } ]
 
-/-- the guard is not idle: a blank data row is dropped (F16) … -/
-example : MdOK exBlank = false ∧ mdToDict (renderMd exBlank) ≠ .ok (toBook exBlank) := by decide
+/-- a blank data row inside the data is kept (F16 repaired): such a workbook satisfies the guard and
+round-trips, the blank rows being read as `{}` … -/
+example : MdOK exBlank = true ∧ mdToDict (renderMd exBlank) = .ok (toBook exBlank) := by decide
+example : mdToDict (renderMd exBlank) = .ok (toBook exBlank) :=
+  md_roundtrip exBlank (by decide) (by decide)
+example : mdStructure (renderMd exBlank) = exBlank.map sheetStruct :=
+  mdStructure_render exBlank (by decide) (by decide)
+example : dget "survey".toList (toBook exBlank) =
+    some (.rows [[(some "type".toList, "text".toList), (some "name".toList, "q".toList)], [], [],
+      [(some "type".toList, "note".toList), (some "name".toList, "n".toList)]]) := by decide
+/-- … the guard is not idle: a trailing blank row is dropped by `md_to_dict` … -/
+example : MdOK exBlankLast = false ∧
+    mdToDict (renderMd exBlankLast) ≠ .ok (toBook exBlankLast) := by decide
+example : exBlankLast.all noTrailingBlank = false := by decide
+/-- … U+00A0 inside a cell is read as a space, by `md_to_dict` as by the dict container … -/
+example : MdOK exNbsp = true ∧ isMarkdownTable (renderMd exNbsp) = true := by decide
+example : mdToDict (renderMd exNbsp) = .ok (toBook exNbsp) :=
+  md_roundtrip exNbsp (by decide) (by decide)
+example : dget "survey".toList (toBook exNbsp) =
+    some (.rows [[(some "type".toList, "note".toList), (some "label".toList, "a b".toList)]]) := by
+  decide
 /-- … a cell beyond the header is ignored, as by the dict container (F27 repaired): such a
 workbook satisfies the guard and round-trips … -/
 example : MdOK exLong = true ∧ mdToDict (renderMd exLong) = .ok (toBook exLong) := by decide
